@@ -287,3 +287,44 @@ def frag(source: str, fragment: str, locals_: Iterable[str] = ()) -> Optional[di
 def has(fn_or_src, fragment: str, locals_: Iterable[str] = ()) -> bool:
     src = fn_or_src if isinstance(fn_or_src, str) else ast.unparse(fn_or_src)
     return frag(src, fragment, locals_) is not None
+
+
+def unstrip(node: ast.AST | str, fold_to_iterable: bool = True) -> ast.AST:
+    """Forget blank-stripping of string elements: `v.strip()` -> v, `map(str.strip, X)` -> X, and an identity
+    comprehension over X -> X (set comprehension -> set(X) unless fold_to_iterable).  Used where a rule asks WHICH value
+    feeds a parameter, not whether its surrounding blanks were removed."""
+    import copy
+    if isinstance(node, str):
+        node = ast.parse(node, mode="eval").body
+
+    class U(ast.NodeTransformer):
+        def visit_Call(self, c):
+            self.generic_visit(c)
+            if isinstance(c.func, ast.Attribute) and c.func.attr == "strip" and not c.args and not c.keywords:
+                return c.func.value
+            if ast.unparse(c.func) == "map" and len(c.args) == 2 and ast.unparse(c.args[0]) == "str.strip":
+                return c.args[1]
+            return c
+
+        def _comp(self, c, wrap):
+            self.generic_visit(c)
+            g = c.generators
+            if (len(g) == 1 and not g[0].ifs and isinstance(c.elt, ast.Name) and isinstance(g[0].target, ast.Name)
+                    and c.elt.id == g[0].target.id):
+                if fold_to_iterable or wrap is None:
+                    return g[0].iter
+                return ast.Call(func=ast.Name(id=wrap, ctx=ast.Load()), args=[g[0].iter], keywords=[])
+            return c
+
+        def visit_SetComp(self, c):
+            return self._comp(c, "set")
+
+        def visit_ListComp(self, c):
+            return self._comp(c, "list")
+
+        def visit_GeneratorExp(self, c):
+            return self._comp(c, None)
+
+    out = U().visit(copy.deepcopy(node))
+    ast.fix_missing_locations(out)
+    return out
